@@ -103,8 +103,8 @@ def run(ctx):
             seeds = [int(rp.get('seed', ctx.seed))]
         except Exception:
             pass
-    n_ls = 4000 if quick else 30000
-    n_rt = 4000 if quick else 30000
+    n_ls = 10000 if quick else 40000
+    n_rt = 10000 if quick else 40000
     late_total = 0
     for sd in seeds:
         # ---- lock-step
